@@ -1,6 +1,12 @@
 """C12 — fs.path functions obey their algebraic laws for every string.
 
 Theorems: lean/FsProofs/C12.lean (over FsModel.Path / FsModel.PathSpec).
+Translator: harness/extract/pathgen.py regenerates lean/FsModel/Generated/PathGen.lean from fs/path.py on
+every run; lean/FsProofs/PathGenEq.lean (one equality per function, re-proved on every run) identifies the
+generated definitions with FsModel.Path, lean/FsProofs/C12Gen.lean restates the headline theorems over them.
+A translator refusal or a broken equality is a broken proof obligation: the correspondence and the law
+oracles below then decide between a failing input and `no-failing-input-found` (which names the
+obligation, e.g. `PathGen.translate(normpath)` or `Fs.PathGenEq.isbase_eq`).
 Correspondence: every function of fs/path.py vs. the compiled model on exhaustive
 component sequences, exhaustive short strings over the regex alphabet and random
 Unicode strings; the laws themselves are also evaluated directly on the real code.
@@ -8,9 +14,15 @@ Unicode strings; the laws themselves are also evaluated directly on the real cod
 from __future__ import annotations
 
 import itertools
+import json
+import os
 
 import vlib
 from vlib import hx, hxlist
+
+# the model regenerated from the source (translator) + its equality to the hand model + corollaries
+EXTRA_PROOF_MODULES = ("FsProofs.PathGenEq", "FsProofs.C12Gen")
+PATHGEN_STATUS = os.path.join(vlib.LEAN, "FsModel", "Generated", "PathGen.status.json")
 
 NAMES = ["", ".", "..", "foo", "a.b", "*{x}[?"]
 ONE = [
@@ -284,9 +296,46 @@ def classify(rep, fn, args, model, impl):
         )
 
 
+def translator_status(rep):
+    """what harness/extract/pathgen.py did on this run: evidence, and one (deferred) broken obligation per refusal"""
+    try:
+        with open(PATHGEN_STATUS) as fh:
+            st = json.load(fh)
+    except (OSError, ValueError) as ex:
+        rep.extra["pathgen"] = {"status": "missing", "error": str(ex)}
+        rep.violation({"broken_obligation": "PathGen.translate(<module>)", "error": str(ex)},
+                      "PathGen.translate(<module>): the translator left no status file (%s)" % ex,
+                      found_input=False, signature="C12/PathGen.translate(<module>)")
+        return
+    exercised = {f.rstrip("012") for f in ONE + TWO} | {"join", "recursepath"}
+    rep.extra["pathgen"] = {
+        "source": st.get("source"),
+        "translated": st.get("translated", []),
+        "refused": [r["obligation"] + ": " + r["message"] for r in st.get("refused", [])],
+        "new_functions_without_hand_model": st.get("new_functions", []),
+        "vanished_functions": st.get("vanished_functions", []),
+        "in_all_not_translated": st.get("not_translated_in_all", []),
+        "translated_but_not_exercised_by_the_correspondence": sorted(
+            n for n in st.get("translated", []) if n not in exercised and not n.startswith("_")),
+    }
+    for r in st.get("refused", []):
+        rep.violation({"broken_obligation": r["obligation"], "function": r["function"], "node": r["node"],
+                       "message": r["message"]},
+                      "%s: the source-to-Lean translator refused (%s); the equality theorems of FsProofs.PathGenEq "
+                      "no longer build, the correspondence and the law oracles found no failing input"
+                      % (r["obligation"], r["message"]),
+                      found_input=False, signature="C12/%s" % r["obligation"])
+    for n in st.get("new_functions", []):
+        rep.violation({"broken_obligation": "PathGen.coverage", "function": n},
+                      "fs/path.py has a function `%s` with no counterpart in the hand model FsModel/Path.lean "
+                      "(no equality theorem, not exercised by the correspondence)" % n,
+                      found_input=False, signature="C12/PathGen.coverage/%s" % n)
+
+
 def run(rep, tier, seed, deep=False):
     drv = vlib.Driver()
     rng = vlib.rng_for(seed, "c12")
+    translator_status(rep)
     L = 5 if tier == "quick" else 7
     A = 7 if tier == "quick" else 9
     R = 10000 if tier == "quick" else 300000
@@ -300,6 +349,8 @@ def run(rep, tier, seed, deep=False):
     )
     rep.assumptions = [
         "Python's re engine, str methods: external (the regex pre-check is re-stated on components and validated via path.reqnorm)",
+        "the source-to-Lean translator harness/extract/pathgen.py and the PyStr primitives: trusted to render the Python "
+        "subset faithfully; validated by this correspondence (Path.* = PathGen.* is proved, Path.* vs fs.path is executed)",
         "lone surrogates are outside the model (Str = List Char); generators never emit them",
     ]
     singles = []
